@@ -540,6 +540,15 @@ namespace
                 owner[j] = owner[i]; // std_allocator propagates on copy assignment
                 break;
             case K_move_assign:
+                // (if move assignment did not propagate the allocator, the standard library would ask
+                // the allocators for equality: recorded finding F19 for the type-erased flavour)
+                if (f19_guard && owner[i] != owner[j]
+                    && !std::allocator_traits<Alloc>::propagate_on_container_move_assignment::value)
+                {
+                    ++ci.counters["excluded_by_known_finding"];
+                    ++ci.noops;
+                    break;
+                }
                 if (owner[i] != owner[j] && !c[i]->empty() && !c[j]->empty())
                     ++n_cross;
                 *c[j] = std::move(*c[i]);
@@ -550,6 +559,13 @@ namespace
                 break;
             case K_swap:
             {
+                // swapping containers whose allocators differ and do not propagate on swap is undefined
+                // behaviour in the standard library: not generated
+                if (owner[i] != owner[j] && !std::allocator_traits<Alloc>::propagate_on_container_swap::value)
+                {
+                    ++ci.noops;
+                    break;
+                }
                 if (owner[i] != owner[j] && !c[i]->empty() && !c[j]->empty())
                     ++n_cross;
                 using std::swap;
